@@ -255,6 +255,11 @@ def good_two():
 '''
 
 
+# module-level names of the module under test: ordinary globals, also ones that happen to be called like a __future__ feature
+HEADERS = ['', '', "annotations = {'a': 1}\n", "division = 'north'\n", 'def generators():\n    return []\n', 'print_function = None\n',
+           'import collections as nested_scopes\n', "__all__ = ['good_one', 'bad', 'good_two']\n", 'with_statement = absolute_import = 0\n']
+
+
 def runner_checks(ctx, cases):
     """doctest_module on a module holding the bad doctest between two good ones + import failure module"""
     from xdoctest import runner
@@ -274,8 +279,9 @@ def runner_checks(ctx, cases):
             modname = 'xdverif_c09_mod_%d' % n
             path = os.path.join(tmp, modname + '.py')
             body = '\n'.join('    ' + l for l in c['doc'].split('\n'))
+            modsrc = HEADERS[n % len(HEADERS)] + MODULE_TMPL % body
             with open(path, 'w') as f:
-                f.write('TRACE = []\n' + PRELUDE + MODULE_TMPL % body)
+                f.write('TRACE = []\n' + PRELUDE + modsrc)
             for verbose in (0, 3) if ctx.tier == 'quick' else (0, 1, 2, 3):
                 ctx.evaluations += 1
                 buf = io.StringIO()
@@ -294,7 +300,7 @@ def runner_checks(ctx, cases):
                         ctx.violation('runner-aborted', {
                             'what': 'doctest_module(command=all, verbose=%d) on a module with one bad doctest between two good ones: %s: %s' % (
                                 verbose, type(e).__name__, str(e)[:300]),
-                            'module_source': MODULE_TMPL % body, 'failure_kind': c['name'],
+                            'module_source': modsrc, 'failure_kind': c['name'],
                             'theorem_or_correspondence': 'C09_others_still_run on runner.doctest_module'}, True)
         # import error of the module under test
         for verbose in (0, 2):
